@@ -8,6 +8,9 @@
     read <0|1> :line :line …         -> ok <state> | err:<class>      (append flag first)
     flatten :style <a|none> <b|none> -> ok <table> | err:<class>
     scan :line …                     -> headers/footers of the single pass (evidence/debugging)
+    sopen <id> :line …               -> ok                              (an open binary stream, position 0; `new` keeps it)
+    sseek <id> <k> <c>               -> ok                              (the caller moves it: k lines + c characters)
+    sread <id> <0|1>                 -> ok <state> @<k>,<c> | err:<class>   (read(stream, append); position afterwards)
 
     <state> = V:<version>|Vnone  D<y>-<m>-<d>|Dnone  N<k>  <sim>*
     <sim>   = <table> (P0 | P1 <ncols> <nrows> :col… (:section :val…)*)
@@ -63,29 +66,60 @@ def showState (st : LogState) : String :=
 def parseOptInt? (s : String) : Option (Option Int) :=
   if s = "none" then some none else s.toInt?.map some
 
-def handleC19 (st : LogState) (toks : List String) : LogState × String :=
+structure World where
+  log : LogState := {}
+  streams : List (Nat × Stream) := []
+
+def World.stream? (w : World) (id : Nat) : Option Stream := (w.streams.find? (·.1 == id)).map (·.2)
+
+def World.setStream (w : World) (id : Nat) (s : Stream) : World :=
+  { w with streams := (id, s) :: w.streams.filter (·.1 != id) }
+
+def handleC19 (w : World) (toks : List String) : World × String :=
+  let st := w.log
   match toks with
-  | ["new"] => (LogState.empty, "ok")
+  | ["new"] => ({ w with log := LogState.empty }, "ok")
   | "read" :: app :: rest =>
     match parseBool? app, rest.mapM decodeTok with
     | some a, some lines =>
       match readLog st a lines with
-      | .ok st' => (st', "ok " ++ showState st')
-      | .error e => (st, err e.name)
-    | _, _ => (st, err "format")
+      | .ok st' => ({ w with log := st' }, "ok " ++ showState st')
+      | .error e => (w, err e.name)
+    | _, _ => (w, err "format")
+  | "sopen" :: id :: rest =>
+    match id.toNat?, rest.mapM decodeTok with
+    | some id, some lines => (w.setStream id { lines := lines }, "ok")
+    | _, _ => (w, err "format")
+  | ["sseek", id, k, c] =>
+    match id.toNat?, k.toNat?, c.toNat? with
+    | some id, some k, some c =>
+      match w.stream? id with
+      | some s => (w.setStream id { s with k := k, c := c }, "ok")
+      | none => (w, err "op")
+    | _, _, _ => (w, err "format")
+  | ["sread", id, app] =>
+    match id.toNat?, parseBool? app with
+    | some id, some a =>
+      match w.stream? id with
+      | none => (w, err "op")
+      | some s =>
+        match readLogS st a s with
+        | .ok (st', s') => ({ (w.setStream id s') with log := st' }, s!"ok {showState st'} @{s'.k},{s'.c}")
+        | .error e => (w, err e.name)
+    | _, _ => (w, err "format")
   | ["flatten", style, a, b] =>
     match decodeTok style, parseOptInt? a, parseOptInt? b with
     | some sty, some a, some b =>
       match flattenTables sty (pySlice (st.sims.map (·.thermo)) a b) with
-      | .ok t => (st, "ok " ++ " ".intercalate (showTable t))
-      | .error e => (st, err e.name)
-    | _, _, _ => (st, err "format")
+      | .ok t => (w, "ok " ++ " ".intercalate (showTable t))
+      | .error e => (w, err e.name)
+    | _, _, _ => (w, err "format")
   | "scan" :: rest =>
     match rest.mapM decodeTok with
     | some lines =>
       let sc := scan {} lines
-      (st, s!"ok i={sc.i} th={sc.thermoHeaders} tf={sc.thermoFooters} ph={sc.perfHeaders} ps={sc.perfSims} pf={sc.perfFooters} old={sc.isOld}")
-    | none => (st, err "format")
-  | _ => (st, err "op")
+      (w, s!"ok i={sc.i} th={sc.thermoHeaders} tf={sc.thermoFooters} ph={sc.perfHeaders} ps={sc.perfSims} pf={sc.perfFooters} old={sc.isOld}")
+    | none => (w, err "format")
+  | _ => (w, err "op")
 
-def main : IO Unit := runDriverS handleC19 LogState.empty
+def main : IO Unit := runDriverS handleC19 {}
